@@ -67,9 +67,23 @@ def run_client(argv):
     return out, buf.getvalue()
 
 
+VARIANTS = [
+    # (depth, width, store algorithm, -algo value, -checksum_algo value, object bytes)
+    (3, 2, "SHA-256", "sha224", "md5", ASCII),
+    (1, 1, "MD5", "SHA3-256", "SHA-1", b"short ascii\n"),
+    (2, 4, "SHA-512", "blake2b", "sha3_256", b"0123456789" * 150),      # longer than the 1000 bytes the client prints
+    (5, 1, "SHA-1", "SHA-384", "blake2s", b"x"),
+]
+
+
 def shards(tier, seed):
     cases = build_cases()
-    return [(c, s) for c, s in zip(chunk(cases, ncpu()), split_seeds(seed * 1000 + 20, ncpu()))]
+    out = []
+    nvar = 1 if tier == "quick" else len(VARIANTS)
+    for v in range(nvar):
+        out += [(c, s, v) for c, s in zip(chunk(cases, ncpu() // (1 if tier == "quick" else 2)),
+                                          split_seeds(seed * 1000 + 20 + v, ncpu()))]
+    return out
 
 
 def min_required(tier):
@@ -112,10 +126,16 @@ def build_cases():
     return cases
 
 
-def run_shard(cases, sub_seed):
+def run_shard(cases, sub_seed, vidx=0):
     res = ShardResult()
     scratch = new_scratch("c20")
-    lay = Layout(3, 2, "SHA-256", DEFAULT_NS)
+    vd, vw, valgo, v_algo_opt, v_calgo_opt, vbytes = VARIANTS[vidx]
+    lay = Layout(vd, vw, valgo, DEFAULT_NS)
+    ASCII = vbytes
+
+    def open_store(path, d=vd, w=vw, a=valgo, ns=DEFAULT_NS):
+        from ..common import open_store as _open
+        return _open(path, d, w, a, ns)
     known = ["new.pid", "k1", "k2", "nometa", "unknown.pid"]
     known_meta = [(p, f) for p in known for f in (None, "fmtX")]
     try:
@@ -139,7 +159,7 @@ def run_shard(cases, sub_seed):
             templates[state] = root
         for n, (verb, sub, variant, state, pid) in enumerate(cases):
             res.evaluations += 1
-            res.distinct.add(repr((verb, sub, variant, state, pid)))
+            res.distinct.add(repr((verb, sub, variant, state, pid, vd, vw, valgo)))
             wit = {"engine": "C20", "verb": verb, "options": list(sub), "variant": variant, "state": state, "pid": repr(pid)}
             shape = {"verb": verb, "options": list(sub), "variant": variant}
             if verb in ("chs", "api_created"):
@@ -185,12 +205,12 @@ def run_shard(cases, sub_seed):
             api = open_store(rb)
             argv = [ra, "-" + verb, f"-pid={pid}"]
             if verb == "storeobject":
-                true = {"md5": hashlib.md5(ASCII).hexdigest(), "sha224": hashlib.sha224(ASCII).hexdigest()}
-                algo = "sha224" if variant != "bad_algo" else "sha999"
-                calgo = "md5" if variant != "bad_algo" else "md9"
-                checksum = true["md5"]
+                from ..model import canon_algo
+                algo = v_algo_opt if variant != "bad_algo" else "sha999"
+                calgo = v_calgo_opt if variant != "bad_algo" else "md9"
+                checksum = hashlib.new(canon_algo(v_calgo_opt), ASCII).hexdigest()
                 if variant == "wrong_checksum":
-                    checksum = "0" * 32
+                    checksum = "0" * len(checksum)
                 if variant == "upper":
                     checksum = checksum.upper()
                 size = len(ASCII) + (5 if variant == "wrong_size" else 0)
